@@ -150,7 +150,8 @@ func (n *scripted) Notify(ctx context.Context, alerts ...*alert.Alert) (bool, er
 		at.Alerts = append(at.Alerts, AttemptAlert{Key: ref.LabelKey(mapOf(a.Labels)), Resolved: a.Resolved(), Start: a.StartsAt, End: a.EndsAt})
 	}
 	if n.inst.clustered {
-		if es, err := n.inst.nflog.Query(nflog.QGroupKey(at.GroupKey), nflog.QReceiver(&nflogpb.Receiver{GroupName: n.receiver, Integration: "webhook", Idx: uint32(n.idx)})); err == nil && len(es) == 1 {
+		iname, iidx := IntegrationName(n.idx)
+		if es, err := n.inst.nflog.Query(nflog.QGroupKey(at.GroupKey), nflog.QReceiver(&nflogpb.Receiver{GroupName: n.receiver, Integration: iname, Idx: uint32(iidx)})); err == nil && len(es) == 1 {
 			at.Entry = &NflogEntry{Found: true, Timestamp: es[0].Timestamp.AsTime(), Firing: append([]uint64(nil), es[0].FiringAlerts...), Resolved: append([]uint64(nil), es[0].ResolvedAlerts...)}
 		}
 	}
@@ -333,8 +334,12 @@ func (in *Instance) reload(spec *Config) error {
 			continue
 		}
 		var ins []notify.Integration
+		// same order as config/receiver.BuildReceiverIntegrations: all webhooks, then all discords
 		for i, wc := range rcv.WebhookConfigs {
 			ins = append(ins, notify.NewIntegration(&scripted{inst: in, receiver: rcv.Name, idx: i}, sendResolved(wc.SendResolved()), "webhook", i, rcv.Name))
+		}
+		for i, dc := range rcv.DiscordConfigs {
+			ins = append(ins, notify.NewIntegration(&scripted{inst: in, receiver: rcv.Name, idx: DiscordBase + i}, sendResolved(dc.SendResolved()), "discord", i, rcv.Name))
 		}
 		receivers[rcv.Name] = ins
 	}
@@ -628,7 +633,8 @@ func (in *Instance) nflogSample(keys []NflogEntry) []NflogEntry {
 	out := make([]NflogEntry, 0, len(keys))
 	for _, k := range keys {
 		e := k
-		es, err := in.nflog.Query(nflog.QGroupKey(k.GroupKey), nflog.QReceiver(&nflogpb.Receiver{GroupName: k.Receiver, Integration: "webhook", Idx: uint32(k.Idx)}))
+		iname, iidx := IntegrationName(k.Idx)
+		es, err := in.nflog.Query(nflog.QGroupKey(k.GroupKey), nflog.QReceiver(&nflogpb.Receiver{GroupName: k.Receiver, Integration: iname, Idx: uint32(iidx)}))
 		if err == nil && len(es) == 1 {
 			e.Found = true
 			e.Timestamp = es[0].Timestamp.AsTime()
@@ -654,7 +660,7 @@ func ScenarioKeys(cfg *Config, lss []map[string]string) []NflogEntry {
 				continue
 			}
 			gk := rt.GroupKey(ls)
-			for i := range rc.Integrations {
+			for _, i := range rc.IDs() {
 				k := fmt.Sprintf("%s|%s|%d", gk, rt.Receiver, i)
 				if !seen[k] {
 					seen[k] = true
